@@ -50,8 +50,10 @@ class Path:
 
 
 class PathEnum:
-    def __init__(self, loop_iters=(0, 1), max_paths=MAX_PATHS, exc_edges=True):
+    def __init__(self, loop_iters=(0, 1), max_paths=MAX_PATHS, exc_edges=True, per_loop=None):
+        self.default_iters = tuple(loop_iters)
         self.loop_iters = tuple(loop_iters)
+        self.per_loop = per_loop  # optional callable(loop node) -> tuple of iteration counts | None
         self.max_paths = max_paths
         self.exc_edges = exc_edges
 
@@ -121,7 +123,12 @@ class PathEnum:
 
     def loop(self, s, is_for) -> list[Path]:
         const_true = (not is_for) and isinstance(s.test, ast.Constant) and bool(s.test.value)
-        max_it = max(self.loop_iters)
+        iters = self.default_iters
+        if self.per_loop is not None:
+            custom = self.per_loop(s)
+            if custom is not None:
+                iters = tuple(custom)
+        max_it = max(iters)
         results = []
 
         def enter(k):
@@ -134,7 +141,7 @@ class PathEnum:
         heads = [Path()]
         for k in range(max_it + 1):
             # exit normally after k iterations
-            if not const_true and (k in self.loop_iters or k == max_it):
+            if not const_true and (k in iters or k == max_it):
                 for h in heads:
                     tail = self.block(s.orelse) if s.orelse else [Path()]
                     for t in tail:
